@@ -48,8 +48,9 @@ func defaultConfig() Config {
 }
 
 type workItem struct {
-	prefix []dec
-	model  Model
+	prefix  []dec
+	model   Model
+	retries int
 }
 
 type WitnessVal struct {
@@ -268,6 +269,9 @@ func RunHarnessW(ld *Loaded, decl *HarnessDecl, base Config, known map[string]bo
 		if s.Errors > 0 {
 			h.incs[fmt.Sprintf("%d solver errors", s.Errors)] = true
 		}
+		if s.Restarts > 0 {
+			h.notes[fmt.Sprintf("solver restarted after a protocol error, the path was executed again (%d times)", s.Restarts)] = true
+		}
 	}
 	h.res.WallS = time.Since(t0).Seconds()
 	for f := range h.fns {
@@ -318,7 +322,8 @@ func (h *HarnessRun) worker(w int, st *SolverStats) {
 		h.mu.Unlock()
 		return
 	}
-	defer solver.Close()
+	defer func() { solver.Close() }()
+	var acc SolverStats
 	ex := newExec(h.ld, h, solver)
 	for {
 		h.mu.Lock()
@@ -336,6 +341,31 @@ func (h *HarnessRun) worker(w int, st *SolverStats) {
 		h.mu.Unlock()
 
 		end, msg := ex.runPath(it)
+
+		if (solver.broken || solver.dead) && it.retries < 3 {
+			// a solver protocol error (z3 answers "(error ... canceled)" when its timer fires between two
+			// commands, after which responses no longer pair with commands): nothing of this run is kept;
+			// a fresh solver process takes over and the path is executed again from its prefix
+			acc.add(solver.Stats)
+			solver.Close()
+			ns, err := NewSolver(h.cfg.Solver, h.cfg.TimeoutMs, os.Getenv("GOSYM_TRANSCRIPT"))
+			if err == nil {
+				solver = ns
+				ex.solver = ns
+				ex.lastDecs, ex.lastLevels = nil, nil
+				ex.implied = map[int]int{}
+				ex.pending = ex.pending[:0]
+				it.retries++
+				acc.Restarts++
+				acc.Errors = 0
+				h.mu.Lock()
+				h.active--
+				h.work = append(h.work, it)
+				h.mu.Unlock()
+				h.cond.Broadcast()
+				continue
+			}
+		}
 
 		h.mu.Lock()
 		h.active--
@@ -385,7 +415,17 @@ func (h *HarnessRun) worker(w int, st *SolverStats) {
 		h.mu.Unlock()
 		h.cond.Broadcast()
 	}
-	*st = solver.Stats
+	acc.add(solver.Stats)
+	*st = acc
+}
+
+func (a *SolverStats) add(b SolverStats) {
+	a.Queries += b.Queries
+	a.Sat += b.Sat
+	a.Unsat += b.Unsat
+	a.Unknown += b.Unknown
+	a.Errors += b.Errors
+	a.Time += b.Time
 }
 
 func newExec(ld *Loaded, h *HarnessRun, solver *Solver) *Exec {
